@@ -505,6 +505,13 @@ FUNCS = [JQ + ".__init__", JQ + ".create_or_load", JQ + ".sessions", JQ + ".find
          "asyncfix.session.FIXSession.__init__"]
 
 
+def _refinement(kind, *a):
+    def h(I):
+        import journal_refinement as jr
+        return jr.persist_refinement(I) if kind == "persist" else jr.set_refinement(*a)(I)
+    return h
+
+
 def make_tasks(which):
     cfg = jc.journal_cfg
     return [
@@ -517,6 +524,12 @@ def make_tasks(which):
     ] + ([
         Task("find_seq_no", find_seq_no_harness, precise_cfg, [JQ + ".find_seq_no"], timeout_ms=20000, cvc5_first=True),
         Task("find_seq_no[total]", find_seq_no_total_harness, Config, [JQ + ".find_seq_no"]),
+        # the abstract journal contracts of the session layer are consequences of the clauses proved here
+        Task("refinement[persist_msg]", _refinement("persist"), Config, []),
+        Task("refinement[set_seq_num:out,in]", _refinement("set", True, True), Config, []),
+        Task("refinement[set_seq_num:out]", _refinement("set", True, False), Config, []),
+        Task("refinement[set_seq_num:in]", _refinement("set", False, True), Config, []),
+        Task("refinement[set_seq_num:none]", _refinement("set", False, False), Config, []),
     ] if which == "c13" else []) + [
         Task("set_seq_num[out,in]", set_seq_harness((True, True), which), cfg, [JQ + ".set_seq_num"], native="journal"),
         Task("set_seq_num[out]", set_seq_harness((True, False), which), cfg, [JQ + ".set_seq_num"], native="journal"),
@@ -673,6 +686,10 @@ ASSUMPTIONS = [
     "A-IND: the statement about operation sequences follows from the per-operation clauses and the table "
     "invariants (UNIQUE CompID pairs, ids within the AUTOINCREMENT bound), which every operation re-establishes",
     "soundness of z3 and of pyvc (path witnesses are replayed on CPython + real sqlite3)",
+    "refinement tasks: the abstract journal contracts the session-layer proofs call (session_common.contract_persist_msg / "
+    "contract_set_seq_num, executed as functions) are consequences of the persist.* / set.* clause terms proved here, for "
+    "free pre / post table states at a probe number; create_or_load and find_seq_no are used by the session layer through "
+    "the same uninterpreted symbols, not through a second formulation",
 ]
 
 FALLBACK = Bounded(
